@@ -291,6 +291,22 @@ impl Model for C06Model {
                         p.collected.extend(r.utxos.iter().cloned());
                         p.next = r.next_page.map(|x| x.to_vec());
                         p.pages += 1;
+                        // a listing of k elements needs at most ceil(k / limit) + 1 pages: a
+                        // cursor that repeats would never end
+                        let k = expected_at(&s.w, &first_tip, addr).map(|e| e.0.len()).unwrap_or(0);
+                        let p = s.pager.as_mut().unwrap();
+                        if p.pages > k.div_ceil(limit.max(1)) + 2 {
+                            if check {
+                                out.violation(
+                                    "pagination-does-not-terminate",
+                                    None,
+                                    json!({"pages_so_far": p.pages, "elements_at_first_tip": k, "page_size": limit, "collected": p.collected.len()}),
+                                );
+                            }
+                            s.dead = true;
+                            s.done = true;
+                            return false;
+                        }
                         if p.next.is_none() {
                             if check {
                                 self.finish_pager(s, out);
@@ -463,6 +479,10 @@ fn real_limit_family(rep: &mut Report, n: usize) {
         let mut pages = 1;
         let mut tip_head = b1;
         while let Some(p) = next {
+            if pages as usize > n / 1000 + 3 {
+                out.violation("pagination-does-not-terminate", None, json!({"pages_so_far": pages, "outputs": n}));
+                break;
+            }
             // one environment event at each page boundary
             match env {
                 0 => {}
@@ -561,6 +581,10 @@ fn wide_tx_family(rep: &mut Report, n: usize, limit: usize) {
                     page += 1;
                     out.states += 1;
                     if next.is_none() {
+                        break;
+                    }
+                    if page > pages_total + 3 {
+                        out.violation("pagination-does-not-terminate", None, json!({"pages_so_far": page, "outputs": n, "page_size": limit}));
                         break;
                     }
                 }
